@@ -22,11 +22,21 @@ func main() {
 	n := fs.Int("n", 0, "family specific count / budget")
 	mode := fs.String("mode", "", "family specific mode")
 	fs.Parse(os.Args[2:]) //nolint:errcheck
-	_ = mode
 	var err error
 	switch os.Args[1] {
 	case "rslquery":
 		err = fam.RSLQuery(*scn, *out, *seed, *n)
+	case "codec":
+		switch *mode {
+		case "parse":
+			err = fam.CodecParse(*scn, *out, *seed, *n)
+		case "record":
+			err = fam.CodecRecord(*out, *seed)
+		case "fuzz":
+			err = fam.CodecFuzz(*out, *seed, *n)
+		default:
+			err = fmt.Errorf("codec: unknown mode %q", *mode)
+		}
 	default:
 		err = fmt.Errorf("unknown family %q", os.Args[1])
 	}
